@@ -107,6 +107,15 @@ of_status_t	of_rs_set_fec_parameters (of_rs_cb_t*		ofcb,
 				ofcb->nb_source_symbols, ofcb->max_nb_source_symbols));
 		goto error;
 	}
+	if (params->nb_source_symbols < 1 || params->nb_repair_symbols < 1 || params->encoding_symbol_length < 1) {
+		OF_PRINT_ERROR(("of_rs_set_fec_parameters: ERROR, nb_source_symbols, nb_repair_symbols and encoding_symbol_length must be at least 1"));
+		goto error;
+	}
+	if (params->nb_repair_symbols > ofcb->max_nb_encoding_symbols - params->nb_source_symbols) {
+		OF_PRINT_ERROR(("of_rs_set_fec_parameters: ERROR, invalid number of encoding symbols (maximum is %d)",
+				ofcb->max_nb_encoding_symbols));
+		goto error;
+	}
 	ofcb->nb_source_symbols = params->nb_source_symbols;
 	ofcb->nb_repair_symbols = params->nb_repair_symbols;
 	ofcb->encoding_symbol_length = params->encoding_symbol_length;
